@@ -44,8 +44,7 @@ func (cm *ChannelMgr) AddChannel(ctx context.Context, chName, chDir string) {
 // (or an empty one) completed with the defaults. It does not create the channel.
 func (cm *ChannelMgr) channelConfig(chName string) ChannelConfig {
 	chCfg := ChannelConfig{
-		Name:                 chName,
-		ReceiveNrRawSegments: cm.defaultReceiveNrRawSegments,
+		Name: chName,
 	}
 	if cm.cfg != nil {
 		for _, cfg := range cm.cfg.Channels {
@@ -63,6 +62,9 @@ func (cm *ChannelMgr) channelConfig(chName string) ChannelConfig {
 	}
 	if chCfg.TimeShiftBufferDepthS == 0 {
 		chCfg.TimeShiftBufferDepthS = cm.defaultTimeShiftBufferDepthS
+	}
+	if chCfg.ReceiveNrRawSegments == 0 { // the default also holds for a channel whose entry does not set it
+		chCfg.ReceiveNrRawSegments = cm.defaultReceiveNrRawSegments
 	}
 	return chCfg
 }
